@@ -124,7 +124,95 @@ fn small_val(rng: &mut Rng, ty: Ty) -> CVal {
 
 const SIMPLE_TYS: [Ty; 7] = [Ty::A, Ty::B, Ty::E, Ty::V, Ty::Transform, Ty::Name, Ty::Visibility];
 
+/// fault enumeration (C08): message kind x receiver condition x direction, then a fresh operation
+const FAULT_CASES: usize = 16;
+
+fn fault_history(seed: u64, idx: usize, out: &mut impl Write) {
+    let mut rng = Rng::new(seed.wrapping_mul(7_000_003) ^ (idx as u64) ^ 0xFA17);
+    let case = idx % FAULT_CASES;
+    let to_host = (idx / FAULT_CASES) % 2 == 1; // direction: false = host -> client, true = client -> host
+    let nclients: u32 = if (idx / (2 * FAULT_CASES)) % 2 == 1 { 2 } else { 1 };
+    // registration sets: case 3 registers B on the sender only
+    let mut host_cfg = PeerCfg::default();
+    let mut client_cfg = PeerCfg::default();
+    if case == 3 {
+        let without_b: Vec<Ty> = PeerCfg::default().registered.into_iter().filter(|t| *t != Ty::B).collect();
+        if to_host { host_cfg.registered = without_b } else { client_cfg.registered = without_b }
+    }
+    let mut c = Ctx { s: Session::new(false, host_cfg), rng: rng.fork(), next_h: 0, live: vec![], nclients };
+    for k in 0..nclients {
+        let cfg = if k == 0 { PeerCfg { registered: client_cfg.registered.clone(), ..PeerCfg::default() } } else { PeerCfg::default() };
+        c.s.add_client(cfg, rng.below(3));
+    }
+    let names = ["comp+despawn_cmd", "comp+despawn_between", "comp+delete_same_frame", "comp_unregistered_on_receiver",
+        "parented+child_despawn_cmd", "parented+parent_despawn_cmd", "parented+parent_despawn_between", "parented+child_despawn_between",
+        "delete+delete_crossing", "delete+despawn_cmd", "spawn+delete_same_frame", "comp_burst+despawn_cmd",
+        "parented_chain+despawn_cmd", "comp+sender_despawns_after_write", "reparent+old_parent_despawn_cmd", "delete_parent_with_child"];
+    writeln!(out, "{}", json!({"ev":"history","family":"fault","id":format!("fault-{}-{}", seed, idx),"clients":nclients,"v6":false,
+        "case":names[case],"to_host":to_host})).unwrap();
+    let types: serde_json::Map<String, serde_json::Value> =
+        ALL_TYS.iter().map(|t| (t.name().to_string(), json!(t.type_path()))).collect();
+    c.s.trace.push(json!({"ev":"types","map":types,"registered":PeerCfg::default().registered.iter().map(|t| t.name()).collect::<Vec<_>>()}));
+    c.s.start_host();
+    c.lockstep(1);
+    let mut connected = true;
+    for cl in 1..=nclients {
+        c.s.connect(cl);
+        connected &= c.wait_connected(cl, 60);
+    }
+    c.s.trace.push(json!({"ev":"connected","ok":connected}));
+    let (snd, rcv) = if to_host { (1u32, 0u32) } else { (0u32, 1u32) };
+    // two synchronized entities known everywhere: x (target) and y (future parent)
+    let x = c.fresh();
+    let y = c.fresh();
+    let z = c.fresh();
+    c.s.spawn(snd, x, true, &[CVal::new(Ty::A, 1)], None);
+    c.s.spawn(snd, y, true, &[], None);
+    c.s.spawn(snd, z, true, &[], None);
+    let d = c.drain(40);
+    c.s.trace.push(json!({"ev":"drain","quiescent":d.0,"rounds":d.1}));
+    // the sender's operation, its frame (message leaves), then the receiver's local operation and frame
+    match case {
+        0 => { c.s.write(snd, x, &CVal::new(Ty::A, 2), &[]); c.s.step(snd); c.s.despawn_in_frame(rcv, x); }
+        1 => { c.s.write(snd, x, &CVal::new(Ty::A, 2), &[]); c.s.step(snd); c.s.despawn(rcv, x); }
+        2 => { c.s.write(snd, x, &CVal::new(Ty::A, 2), &[]); c.s.step(snd); c.s.despawn(snd, x); c.s.step(snd); }
+        3 => { c.s.write(snd, x, &CVal::new(Ty::B, 2), &[]); c.s.step(snd); }
+        4 => { c.s.set_parent(snd, x, y); c.s.step(snd); c.s.despawn_in_frame(rcv, x); }
+        5 => { c.s.set_parent(snd, x, y); c.s.step(snd); c.s.despawn_in_frame(rcv, y); }
+        6 => { c.s.set_parent(snd, x, y); c.s.step(snd); c.s.despawn(rcv, y); }
+        7 => { c.s.set_parent(snd, x, y); c.s.step(snd); c.s.despawn(rcv, x); }
+        8 => { c.s.despawn(snd, x); c.s.despawn(rcv, x); c.s.step(snd); }
+        9 => { c.s.despawn(snd, x); c.s.step(snd); c.s.despawn_in_frame(rcv, x); }
+        10 => { let n = c.fresh(); c.s.spawn(snd, n, true, &[CVal::new(Ty::A, 5)], None); c.s.step(snd); c.s.despawn(snd, n); c.s.step(snd); }
+        11 => { for k in 0..3 { c.s.write(snd, x, &CVal::new(Ty::A, 10 + k), &[]); c.s.step(snd); } c.s.despawn_in_frame(rcv, x); }
+        12 => { c.s.set_parent(snd, x, y); c.s.set_parent(snd, y, z); c.s.step(snd); c.s.despawn_in_frame(rcv, y); }
+        13 => { c.s.write(snd, x, &CVal::new(Ty::A, 2), &[]); c.s.despawn(snd, x); c.s.step(snd); }
+        14 => { c.s.set_parent(snd, x, y); let d = c.drain(40); c.s.trace.push(json!({"ev":"drain","quiescent":d.0,"rounds":d.1}));
+                c.s.set_parent(snd, x, z); c.s.step(snd); c.s.despawn_in_frame(rcv, y); }
+        _ => { c.s.set_parent(snd, x, y); let d = c.drain(40); c.s.trace.push(json!({"ev":"drain","quiescent":d.0,"rounds":d.1}));
+               c.s.despawn(snd, y); c.s.step(snd); }
+    }
+    // the receiver's frame in which the message is polled; sometimes the receiver is one frame late
+    if c.rng.chance(1, 4) { c.s.step(snd); }
+    c.s.step(rcv);
+    c.s.trace.push(json!({"ev":"fault_done"}));
+    c.lockstep(3);
+    // afterwards replication must still work: a fresh entity with a value, from the receiver
+    let f = c.fresh();
+    c.s.spawn(rcv, f, true, &[CVal::new(Ty::A, 77)], None);
+    c.lockstep(2);
+    c.s.write(rcv, f, &CVal::new(Ty::A, 78), &[]);
+    let d = c.drain(60);
+    c.s.trace.push(json!({"ev":"drain","quiescent":d.0,"rounds":d.1,"final":true,"fresh":f}));
+    let panicked = c.s.panicked.clone();
+    c.s.emit(out);
+    writeln!(out, "{}", json!({"ev":"end","panic":panicked.map(|(p, m)| json!({"peer":p,"msg":m}))})).unwrap();
+}
+
 fn history(family: &str, seed: u64, idx: usize, thorough: bool, out: &mut impl Write) {
+    if family == "fault" {
+        return fault_history(seed, idx, out);
+    }
     let mut rng = Rng::new(seed.wrapping_mul(1_000_003) ^ (idx as u64) ^ 0x5E55);
     let nclients = match rng.below(10) {
         0..=4 => 1,
